@@ -18,6 +18,7 @@ import (
 func init() {
 	register(&Property{
 		ID:      "C18",
+		NeedGen: true,
 		Runtime: []string{"./api", "./codegen/...", "./plugin/...", "./internal/...", "."},
 		Run:     runC18,
 		Explanation: "No map-iteration order and no goroutine scheduling can reach generated output: (map-order) every `range` over a map in the generator packages (api, codegen, codegen/config, codegen/templates, plugin/*, " +
@@ -250,6 +251,8 @@ func runC18(c *Ctx) {
 	c18Comparators(c)
 	c18Idempotence(c)
 	c18EmittedDeclsMarked(c)
+	c19CopiedWriters(c)
+	c17Materialise(c)
 
 	c.R.Rule("sequential", "the generator packages contain no go statement (scheduling and GOMAXPROCS cannot influence gqlgen's own generator code)", 1)
 	ngo := 0
